@@ -96,30 +96,28 @@ impl<'a> IntersectionParams<'a> {
 
         // If we got here, line segments intersect. Compute intersection point using method similar
         // to that described here: http://paulbourke.net/geometry/pointlineplane/#i2l
-
-        // The denominator/2 is to get rounding instead of truncating.
-        let offset = denominator.abs() / 2;
-
         let origin_distances = Point::new(line1.origin_distance, line2.origin_distance);
 
-        let numerator =
+        let x_numerator =
             origin_distances.determinant(Point::new(line1.normal_vector.y, line2.normal_vector.y));
-        let x_numerator = if numerator < 0 {
-            numerator - offset
-        } else {
-            numerator + offset
-        };
-
-        let numerator =
+        let y_numerator =
             Point::new(line1.normal_vector.x, line2.normal_vector.x).determinant(origin_distances);
-        let y_numerator = if numerator < 0 {
-            numerator - offset
-        } else {
-            numerator + offset
+
+        // Round to the nearest integer with ties always rounded up, independent of the sign of
+        // the coordinate. This makes the result independent of the position of the lines, i.e.
+        // translating both lines translates the intersection point by the same amount.
+        let round_div = |numerator: i32| {
+            let (numerator, denominator) = if denominator < 0 {
+                (-numerator, -denominator)
+            } else {
+                (numerator, denominator)
+            };
+
+            (numerator + denominator / 2).div_euclid(denominator)
         };
 
         Intersection::Point {
-            point: Point::new(x_numerator, y_numerator) / denominator,
+            point: Point::new(round_div(x_numerator), round_div(y_numerator)),
             outer_side,
         }
     }
